@@ -1302,6 +1302,11 @@ func (e *Exec) execSlice(x *ssa.Slice, st *State) {
 		n := c.fresh("slice", SSlice)
 		// slicing a nil slice yields nil
 		c.fact(fmt.Sprintf("(= %s (mk_Slice (sl_arr %s) %s %s %s))", n, base.T, c.add(fmt.Sprintf("(sl_off %s)", base.T), lo), c.sub(hi, lo), c.sub(mx, lo)))
+		if isByteSlice(x.X.Type()) && !c.bv {
+			c.needBytesTheory()
+			// content of a sub-slice, stated in the T-Bytes vocabulary (instance of axiom seq_sub)
+			c.factUnder(st.pc, fmt.Sprintf("(=> (<= %s (sl_len %s)) (= %s (bsub %s %s %s)))", hi, base.T, c.seqOf(st.heap, n), c.seqOf(st.heap, base.T), lo, hi))
+		}
 		e.env[x] = Val{T: n, S: SSlice, GT: x.Type()}
 	case *types.Pointer:
 		at := u.Elem().Underlying().(*types.Array)
@@ -1441,6 +1446,14 @@ func (e *Exec) execReturn(x *ssa.Return, st *State) {
 	sig := e.fn.Signature
 	for i, r := range x.Results {
 		results = append(results, e.coerce(e.val(r), sig.Results().At(i).Type()))
+	}
+	for _, gs := range e.con.GhostSets {
+		esc := e.scope(c.entry, c.entry)
+		esc.where = "ghost-set " + gs.Name
+		esc.evalIdent(gs.Name)
+		idx := esc.rvalue(esc.eval(gs.Idx))
+		val := esc.rvalue(esc.eval(gs.Val.E))
+		st.heap = c.hstore(st.heap, "G:"+gs.Name, idx.T, val.T)
 	}
 	sc := e.scope(st.heap, c.entry)
 	sc.results = results
